@@ -457,7 +457,7 @@ def genval(r, rng, sc, name=None):
             if enc in ("utf16", "utf32") and len(M.str_encode("a", enc)) - M.UNIT[enc] > n:
                 s = ""
         return s
-    if k in ("Enum", "EnumClass"):
+    if k in ("Enum", "EnumClass", "EnumMixed"):
         labels = M.enum_labels(r)
         c = rng.random()
         if c < 0.6:
